@@ -124,10 +124,25 @@ def gen_component_history(seed):
             known[nxt] = p
             ops.append(["clone", nxt, src, p])
             nxt += 1
-        elif r < 0.40 and len(live) > 1:
+        elif r < 0.42 and len(live) > 1:
             i = rng.choice(live)
             del coords[i]
             ops.append(["delete", i])
+        elif r < 0.52 and set(known) - set(coords):
+            # an atom that was taken out of the map earlier is put back (the same object):
+            # remove_cell ... other operations and queries ... add_cell, as the optimiser
+            # does around its scans -- at the same place, a little moved, or elsewhere
+            i = rng.choice(sorted(set(known) - set(coords)))
+            q = rng.random()
+            if q < 0.5:
+                p = list(known[i])
+            elif q < 0.75:
+                p = [known[i][k] + rng.choice([0.0, 1e-3, -1e-3, 0.3, -0.3]) for k in range(3)]
+            else:
+                p = _gen_point(rng, size, list(coords.values()))
+            coords[i] = p
+            known[i] = p
+            ops.append(["readd", i, p])
         elif r < 0.85:
             i = rng.choice(live)
             if rng.random() < 0.5:
@@ -138,6 +153,7 @@ def gen_component_history(seed):
             else:
                 p = _gen_point(rng, size, [c for j, c in coords.items() if j != i])
             coords[i] = p
+            known[i] = p
             ops.append(["move", i, p])
         elif r < 0.93:
             newsize = size if rng.random() < 0.5 else rng.choice(SIZES)
@@ -265,6 +281,15 @@ def run_component_history(ops, stats=None):
                 raise IllegalHistory("delete of an atom that is not registered")
             cells.remove_cell(atoms[op[1]])
             live.remove(op[1])
+        elif k == "readd":
+            if op[1] not in atoms or op[1] in live:
+                raise IllegalHistory("re-adding needs an existing atom that is not registered")
+            a = atoms[op[1]]
+            a.x, a.y, a.z = op[2]
+            live.append(op[1])
+            cells.add_cell(a)
+            if stats is not None:
+                stats["readd"] = stats.get("readd", 0) + 1
         elif k == "move":
             if op[1] not in live or op[1] in pending:
                 raise IllegalHistory("move of an atom that is not registered")
@@ -349,7 +374,7 @@ def shrink_component(ops, want):
     for nd in (0, 1, 3):
         cand = [list(o) for o in body]
         for o in cand:
-            if o[0] in ("spawn", "create", "move"):
+            if o[0] in ("spawn", "create", "move", "readd"):
                 o[2] = [round(v, nd) for v in o[2]]
         if fails(head + cand):
             body = cand
@@ -362,7 +387,7 @@ def job_component(job, scratch):
     """Generate and execute `count` histories starting at seed*1_000_003 + first."""
     base = job["seed"] * 1_000_003
     stats = {"queries": 0, "cross": 0, "neg": 0, "negzero": 0, "exact": 0, "far": 0,
-             "rebuild": 0, "dirs": set()}
+             "rebuild": 0, "readd": 0, "dirs": set()}
     nontrivial = 0
     import hashlib
     sigs = []
@@ -652,7 +677,7 @@ def main(tier, seed):
 
     violations = []  # (kind, payload)
     harness_errors = []
-    comp = {"histories": 0, "ops": 0, "queries": 0, "cross": 0, "neg": 0, "negzero": 0,
+    comp = {"readd": 0, "histories": 0, "ops": 0, "queries": 0, "cross": 0, "neg": 0, "negzero": 0,
             "exact": 0, "far": 0, "rebuild": 0, "dirs": set(), "nontrivial": set(),
             "sample": None}
     pipe = {"runs": 0, "ok": 0, "failed": 0, "queries": 0, "expected_pairs": 0,
@@ -672,7 +697,7 @@ def main(tier, seed):
                 return
             comp["histories"] += res["histories"]
             comp["ops"] += res["ops"]
-            for k in ("queries", "cross", "neg", "negzero", "exact", "far", "rebuild"):
+            for k in ("queries", "cross", "neg", "negzero", "exact", "far", "rebuild", "readd"):
                 comp[k] += res["stats"][k]
             comp["dirs"].update(tuple(d) for d in res["stats"]["dirs"])
             comp["nontrivial"].update(res["nontrivial_sigs"])
@@ -773,6 +798,7 @@ def main(tier, seed):
             "component.exact_multiple_of_cellsize": comp["exact"],
             "component.far_from_origin": comp["far"],
             "component.neighbour_directions_covered_of_27": len(comp["dirs"]),
+            "component.atom_re_registered_after_removal": comp["readd"],
             "pipeline.moves_crossing_cell_boundary": pipe["moves_cross"],
             "pipeline.coordinate_writes_on_registered_atoms": pipe["coord_writes_registered"],
             "pipeline.queries_compared": pipe["queries"],
